@@ -18,7 +18,7 @@ def wigm_config(rng, allow_rational=True):
         pass                                   # default guarded 18+9
     elif k < 0.50:
         o['arithmetic'] = 'guarded'
-        o['precision'] = rng.randint(4, 18)
+        o['precision'] = rng.randint(0, 3) if rng.random() < 0.3 else rng.randint(4, 18)
         o['guard'] = rng.randint(0, 9)
     elif k < 0.78:
         o['arithmetic'] = 'fixed'
